@@ -27,6 +27,7 @@ type Profile struct {
 	CloseOps   bool
 	IOOps      bool
 	Names      []string
+	TimeHeavy  bool // queries aim at the time field t
 	AltIds     bool // ids in every textual form uuid.FromString accepts, not only the canonical one
 	BigInts    bool
 	IdxPool    []string // fields CreateIndex chooses from
@@ -254,7 +255,7 @@ func (g *Gen) doc(id V) V {
 	}
 	for _, f := range fieldPool {
 		p := 0.55
-		if f == "x" {
+		if f == "x" || (f == "t" && g.P.TimeHeavy) {
 			p = 0.85
 		}
 		if g.chance(p) {
@@ -363,6 +364,9 @@ func canonicalFor(u *Universe, v V, kind string) V {
 // leafField prefers the fields that are indexed in the collection the query is aimed at, so that
 // the planner's index paths are exercised.
 func (g *Gen) leafField() string {
+	if g.P.TimeHeavy && g.chance(0.7) {
+		return "t"
+	}
 	if len(g.focus) > 0 && g.chance(0.65) {
 		return g.pick(g.focus)
 	}
@@ -916,7 +920,99 @@ func (g *Gen) indexCatalogSweep() []E {
 		evs = append(evs, E{"op": "ListIndexes", "c": c})
 	}
 	g.setFocus(c)
+	// every surviving index visited backwards and forwards, without bounds
+	for _, f := range fields {
+		for _, dir := range []int{-1, 1} {
+			evs = append(evs, E{"op": "FindAll", "c": c, "q": []interface{}{[]interface{}{"sort", []interface{}{[]interface{}{B(f), dir}}}}})
+		}
+	}
 	evs = append(evs, g.event("FindAll"), g.event("Derived"))
+	return evs
+}
+
+// containerSweep: an index on an object-valued (or array-valued) field whose content is then changed
+// in place, below the indexed path, by point and bulk updaters; afterwards the field is queried
+// through the index with whole-container operands.
+func (g *Gen) containerSweep() []E {
+	c := g.colls[0]
+	f := g.pick([]string{"n", "n", "arr"})
+	var evs []E
+	if !g.idx[c][f] {
+		g.idx[c][f] = true
+		evs = append(evs, E{"op": "CreateIndex", "c": c, "f": B(f)})
+	}
+	evs = append(evs, g.event("Insert"), g.event("Insert"))
+	ids := g.liveIds(c)
+	sub := map[string][]string{"n": {"n.a", "n.b", "n.q"}, "arr": {"arr"}}[f]
+	for i := 0; i < 2 && len(ids) > 0; i++ {
+		p := g.pick(sub)
+		kind := "setInPlace"
+		if f == "arr" {
+			kind = "appendInPlace"
+		}
+		evs = append(evs, E{"op": "UpdateById", "c": c, "id": B(g.pick(ids)), "upd": []interface{}{kind, B(p), g.fieldValue(p)}})
+	}
+	p := g.pick(sub)
+	kind := "setInPlace"
+	if f == "arr" {
+		kind = "appendInPlace"
+	}
+	evs = append(evs, E{"op": "UpdateFunc", "c": c, "q": []interface{}{}, "upd": []interface{}{kind, B(p), g.smallNum()}})
+	g.setFocus(c)
+	for _, op := range []string{"gte", "lte", "eq"} {
+		evs = append(evs, E{"op": "FindAll", "c": c, "q": []interface{}{[]interface{}{"where", []interface{}{"un", op, B(f), []interface{}{"lit", g.fieldValue(f)}}}}})
+	}
+	evs = append(evs, E{"op": "FindAll", "c": c, "q": []interface{}{[]interface{}{"where", []interface{}{"un", "gte", B(f), []interface{}{"lit", ANil()}}}, []interface{}{"sort", []interface{}{[]interface{}{B(f), 1}}}}})
+	return evs
+}
+
+// missingSweep: every kind of operation on a collection that does not exist (never created, or
+// dropped a moment ago), the queries with every kind of window - including the empty one.
+func (g *Gen) missingSweep() []E {
+	var evs []E
+	name := "never-created"
+	for _, c := range g.colls {
+		if g.created[c] && g.chance(0.5) {
+			g.created[c] = false
+			g.live[c] = map[string]bool{}
+			g.idx[c] = map[string]bool{}
+			evs = append(evs, E{"op": "DropCollection", "c": c})
+			name = c
+			break
+		}
+	}
+	lim := func(n int) []interface{} { return []interface{}{"limit", n} }
+	where := []interface{}{"where", []interface{}{"un", "gte", B("x"), []interface{}{"lit", g.smallNum()}}}
+	qs := [][]interface{}{{}, {lim(0)}, {lim(1)}, {[]interface{}{"skip", 1}}, {where, lim(0)}, {where},
+		{[]interface{}{"sort", []interface{}{[]interface{}{B("x"), 1}}}, lim(0)}}
+	for _, op := range []string{"FindAll", "Count", "ForEach", "IterateDocs", "Exists", "FindFirst", "Delete"} {
+		for _, q := range qs {
+			if (op == "Exists" || op == "FindFirst") && len(q) > 0 && fmt.Sprint(q[len(q)-1]) == fmt.Sprint(lim(0)) {
+				continue
+			}
+			if op == "Delete" && len(q) > 0 && !g.chance(0.4) {
+				continue
+			}
+			e := E{"op": op, "c": name, "q": q}
+			if op == "ForEach" || op == "IterateDocs" {
+				e["j"] = 0
+			}
+			evs = append(evs, e)
+		}
+	}
+	id := g.pick(g.ids)
+	evs = append(evs,
+		E{"op": "FindById", "c": name, "id": B(id)}, E{"op": "DeleteById", "c": name, "id": B(id)},
+		E{"op": "UpdateById", "c": name, "id": B(id), "upd": []interface{}{"id"}},
+		E{"op": "ReplaceById", "c": name, "id": B(id), "docs": []interface{}{g.doc(AStr(id))}},
+		E{"op": "Insert", "c": name, "docs": []interface{}{g.doc(AStr(id))}},
+		E{"op": "Update", "c": name, "q": []interface{}{lim(0)}, "upd": g.updateMap()},
+		E{"op": "UpdateFunc", "c": name, "q": []interface{}{}, "upd": []interface{}{"id"}},
+		E{"op": "HasIndex", "c": name, "f": B("x")}, E{"op": "ListIndexes", "c": name},
+		E{"op": "CreateIndex", "c": name, "f": B("x")}, E{"op": "DropIndex", "c": name, "f": B("x")},
+		E{"op": "Export", "c": name, "path": "missing.json"},
+		E{"op": "CreateByQuery", "name": "byq-from-missing", "c": name, "q": []interface{}{lim(0)}, "audit": true},
+		E{"op": "HasCollection", "c": name}, E{"op": "ListCollections", "audit": true})
 	return evs
 }
 
@@ -943,6 +1039,12 @@ func (g *Gen) History() []E {
 	}
 	if g.P.Name == "indexcat" && g.chance(0.5) {
 		evs = append(evs, g.indexCatalogSweep()...)
+	}
+	if g.P.Name == "catalog" && g.chance(0.6) {
+		evs = append(evs, g.missingSweep()...)
+	}
+	if (g.P.Name == "reads" || g.P.Name == "general") && g.P.Indexes && g.chance(0.35) {
+		evs = append(evs, g.containerSweep()...)
 	}
 	for len(evs) < g.P.Ops {
 		op := g.weightedOp()
